@@ -8,4 +8,16 @@ type (
 	RWMutex   = rt.RWMutex
 	WaitGroup = rt.WaitGroup
 	Once      = rt.Once
+	Map       = rt.Map
+	Pool      = rt.Pool
+	Cond      = rt.Cond
+	Locker    = rt.Locker
 )
+
+func NewCond(l Locker) *Cond { return rt.NewCond(l) }
+
+func OnceFunc(f func()) func() { return rt.OnceFunc(f) }
+
+func OnceValue[T any](f func() T) func() T { return rt.OnceValue(f) }
+
+func OnceValues[T1, T2 any](f func() (T1, T2)) func() (T1, T2) { return rt.OnceValues(f) }
